@@ -135,7 +135,7 @@ def monitor(rp, plans, bus, uids, rng):
 
 
 # -- work_cb -------------------------------------------------------------------------------------
-def run_work_cb(rp, n, raise_at):
+def run_work_cb(rp, n, raise_at, marks=None):
     """the real BaseComponent.work_cb with one input; the work routine handles things one by one
     (advancing each) and raises when it reaches index `raise_at`"""
     import radical.pilot.utils as rpu
@@ -153,6 +153,7 @@ def run_work_cb(rp, n, raise_at):
             if raise_at is not None and i == raise_at:
                 raise RuntimeError('work routine failed')
             c.advance(t, 'TMGR_STAGING_OUTPUT_PENDING', publish=True, push=True)
+    c._cancel_list = [t['uid'] for t, m in zip(things, marks or []) if m]
     c._inputs  = {'in': {'qname': None, 'queue': Q(), 'states': ['AGENT_STAGING_OUTPUT_PENDING']}}
     c._workers = {'AGENT_STAGING_OUTPUT_PENDING': work}
     survived = True
@@ -206,6 +207,27 @@ def run(ctx):
             if not survived:
                 ctx.fail('component:taken-down-by-work-error', 'work_cb raised', {'kind': 'work_cb', 'n': n, 'raise_at': raise_at})
     common.compare(ctx, 'pipeline', wops, wimpl, what='real BaseComponent.work_cb with a work routine raising mid-bulk (exhaustive up to 4 things)')
+    # ... with pending cancel requests for some things of the bulk (exhaustive up to 4 things)
+    import itertools
+    mops, mimpl = [], []
+    for n in range(1, 5):
+        for marks in itertools.product([False, True], repeat=n):
+            nact = marks.count(False)
+            for raise_at in [None] + list(range(nact)):
+                per, survived = run_work_cb(rp, n, raise_at, list(marks))
+                mops.append({'op': 'work_cb_marked', 'marks': list(marks), 'raise_at': raise_at}); mimpl.append(per)
+                ctx.case(mops[-1], nontrivial=raise_at is not None and any(marks))
+                for i, (m, l) in enumerate(zip(marks, per)):
+                    finals = [x for x in l if x in ('DONE', 'FAILED', 'CANCELED')]
+                    if len(finals) > 1:
+                        ctx.fail('work_cb:thing-published-in-two-final-states', 'thing %d: %s (marks %s, work raises at %s)' % (i, l, list(marks), raise_at),
+                                 {'kind': 'work_cb', 'n': n, 'raise_at': raise_at, 'marks': list(marks)})
+                    if m and 'FAILED' in l:
+                        ctx.fail('work_cb:canceled-thing-reported-FAILED', 'thing %d was canceled at the intake and never handed to the work routine: %s' % (i, l),
+                                 {'kind': 'work_cb', 'n': n, 'raise_at': raise_at, 'marks': list(marks)})
+                if not survived:
+                    ctx.fail('component:taken-down-by-work-error', 'work_cb raised', {'kind': 'work_cb', 'n': n, 'raise_at': raise_at, 'marks': list(marks)})
+    common.compare(ctx, 'pipeline', mops, mimpl, what='real BaseComponent.work_cb: intake cancel filter + raising work routine (exhaustive up to 4 things)')
     ctx.rule = ('bulks of 1-5 tasks; per task a fault plan: client/agent input directive that cannot be staged, no launcher, launch error, '
                 'exit code 0/1/3, cancel request or timeout while running, agent/client output directive that cannot be staged, '
                 'stage_on_error; the published notifications are fed to a real TaskManager in emission order and in two shuffled orders')
@@ -238,6 +260,6 @@ def replay(ctx, data):
         bad = monitor(rp, i['plans'], bus, uids, ctx.rng)
         print(per_task(bus, uids)); print(bad)
         return not bad
-    per, survived = run_work_cb(rp, i['n'], i['raise_at'])
+    per, survived = run_work_cb(rp, i['n'], i['raise_at'], i.get('marks'))
     print(per, survived)
-    return survived
+    return survived and not any(len([x for x in l if x in ('DONE', 'FAILED', 'CANCELED')]) > 1 for l in per)
